@@ -23,7 +23,16 @@ Added for the per-property refinement files Proofs/Src_refine_<group>.v:
   `x.append(e)` on a list created by `x = [..]` in the function and never aliased (x = x + [e]);
   random draws: `x = rndstr(..)` -> py_draw on the supply parameter `draws`; `while test: x = rndstr(..)` (no bound in
   the source) -> py_redraw, recursion on the supply; a draw inside a conditional must be the last one.
-Source identifiers that would capture a name of the emitted Gallina are refused.
+  `x in self` / `x not in self` -> the class's own __contains__ (a translated method; refused without one);
+  urlsplit / urlunsplit / parse_qs (the global must BE the urllib.parse function) -> environment parameters E_<name>;
+  <namedtuple>._replace(field=v) -> py_nt_replace;
+  int(x) -> py_int_of; x[n:] -> py_slice_from; s.split(sep, n) -> py_split_max; `a, b = e` -> py_unpack;
+  general `while test: body` (continue / break / return, any number of carried variables, no else, not nested, one per
+  function) -> py_while: recursion on the explicit parameter `fuel : nat` of the translated function (the source has no
+  bound: running out of fuel is the distinct error OutOfFuel, and the refinement lemma says for which fuel it cannot
+  happen).
+Source identifiers that would capture a name of the emitted Gallina: a parameter / local that spells a reserved word
+is renamed <name>_py (refused if that name occurs too); names of the forms t<n>, k<n>, draws<n>, py_*, G_* are refused.
 """
 import ast
 import importlib
@@ -56,6 +65,10 @@ COQ_RESERVED = {"fst", "snd", "nth", "bind", "Ok", "Err", "Unmodelled", "clock",
 DRAW_CALLS = {"rndstr"}
 # attribute names that denote an environment function of the object (never a method of a built-in type)
 ENV_CALLS = {"upstream_get"}
+# functions of the standard library whose result is not defined by the translated code: a call f(x) of the global name
+# bound to exactly this library function becomes the environment parameter E_<name> : pyval -> res pyval (the refinement
+# lemma instantiates it with the hand-written, differentially validated model of the library function)
+LIB_CALLS = {"urlsplit": "urllib.parse", "urlunsplit": "urllib.parse", "parse_qs": "urllib.parse"}
 
 
 class T:
@@ -70,7 +83,8 @@ class T:
         self.fresh_lists = set()        # names bound by `x = [..]` in this function and never aliased: x.append(e) is x = x + [e]
         self.cursor = 0                 # random draws consumed so far (the supply is the parameter `draws`)
         self.cursor_dead = False        # a draw happened inside a conditional: no draw may follow it
-        self.loop = None                # inside the body of a general for loop: the name of the carried variable
+        self.loop = None                # inside the body of a general loop: the carried state (a name / a list of names)
+        self.loop_ctor = "L"            # constructors of the loop's control type: LNext.. (py_for) / WNext.. (py_while)
 
     def fresh(self):
         self.n += 1
@@ -118,6 +132,8 @@ class T:
                 sl = e.slice
                 if sl.lower is None and sl.upper is not None and sl.step is None:
                     return self.bind2(self.expr(e.value), self.expr(sl.upper), "py_slice_to %s %s")
+                if sl.lower is not None and sl.upper is None and sl.step is None:
+                    return self.bind2(self.expr(e.value), self.expr(sl.lower), "py_slice_from %s %s")
                 raise Unsupported("slice " + ast.dump(sl)[:60])
             return self.bind2(self.expr(e.value), self.expr(e.slice), "py_getitem %s %s")
         if isinstance(e, ast.UnaryOp) and isinstance(e.op, ast.Not):
@@ -141,6 +157,17 @@ class T:
                     return "(%s <- %s ;; py_is_none %s)" % (a, l, a)
                 b = self.fresh()
                 return "(%s <- %s ;; %s <- py_is_none %s ;; py_not %s)" % (a, l, b, a, b)
+            if isinstance(op, (ast.In, ast.NotIn)) and isinstance(rnode, ast.Name) and rnode.id == "self":
+                # x in self: the class's own __contains__, translated from the source like any other method
+                if "__contains__" not in self.methods:
+                    raise Unsupported("`in self` without a translated __contains__")
+                callee = self.sibling("__contains__")
+                if len(callee.args.args) != 2 or callee.args.vararg or callee.args.kwonlyargs or callee.args.kwarg:
+                    raise Unsupported("__contains__ signature")
+                a, b = self.fresh(), self.fresh()
+                if isinstance(op, ast.In):
+                    return "(%s <- %s ;; %s self %s clock)" % (a, l, self.methods["__contains__"], a)
+                return "(%s <- %s ;; %s <- %s self %s clock ;; py_not %s)" % (a, l, b, self.methods["__contains__"], a, b)
             r = self.expr(rnode)
             tbl = {ast.Lt: "py_cmp Z.ltb %s %s", ast.Gt: "py_cmp Z.gtb %s %s", ast.GtE: "py_cmp Z.geb %s %s",
                    ast.LtE: "py_cmp Z.leb %s %s", ast.Eq: "py_eq %s %s", ast.NotEq: "py_ne %s %s", ast.In: "py_in %s %s"}
@@ -203,6 +230,20 @@ class T:
                 self.extra[nm] = "pyval -> pyval -> res pyval"
                 return self.bind2(self.expr(f.slice), self.expr(e.args[0]), nm + " %s %s")
             raise Unsupported("call through %s, which is not a module-level dict of callables" % f.value.id)
+        if isinstance(f, ast.Name) and f.id in LIB_CALLS and f.id not in self.bound and len(e.args) == 1 and not e.keywords \
+                and not isinstance(e.args[0], ast.Starred):
+            g = self.globals.get(f.id)
+            lib = getattr(importlib.import_module(LIB_CALLS[f.id]), f.id)
+            if g is not lib:
+                raise Unsupported("%s is not %s.%s here" % (f.id, LIB_CALLS[f.id], f.id))
+            a = self.fresh()
+            self.extra["E_" + f.id] = "pyval -> res pyval"
+            return "(%s <- %s ;; E_%s %s)" % (a, self.expr(e.args[0]), f.id, a)
+        # <namedtuple>._replace(field=value): a copy with that one field changed (PyOps.py_nt_replace)
+        if isinstance(f, ast.Attribute) and f.attr == "_replace" and not e.args and len(e.keywords) == 1 \
+                and e.keywords[0].arg is not None:
+            return self.bind2(self.expr(f.value), self.expr(e.keywords[0].value),
+                              "py_nt_replace %%s %s %%s" % coqstr(e.keywords[0].arg))
         if isinstance(f, ast.Name) and f.id == "list" and "list" not in self.bound and "list" not in self.globals \
                 and len(e.args) == 1 and not e.keywords:
             a = self.fresh()
@@ -211,6 +252,15 @@ class T:
                 and len(e.args) == 1 and not e.keywords:
             a = self.fresh()
             return "(%s <- %s ;; py_len %s)" % (a, self.expr(e.args[0]), a)
+        if isinstance(f, ast.Name) and f.id == "int" and "int" not in self.bound and "int" not in self.globals \
+                and len(e.args) == 1 and not e.keywords and not isinstance(e.args[0], ast.Starred):
+            a = self.fresh()
+            return "(%s <- %s ;; py_int_of %s)" % (a, self.expr(e.args[0]), a)
+        if isinstance(f, ast.Attribute) and f.attr == "split" and len(e.args) == 2 and not e.keywords \
+                and not any(isinstance(x, ast.Starred) for x in e.args):
+            a, b, c = self.fresh(), self.fresh(), self.fresh()
+            return "(%s <- %s ;; %s <- %s ;; %s <- %s ;; py_split_max %s %s %s)" % (
+                a, self.expr(f.value), b, self.expr(e.args[0]), c, self.expr(e.args[1]), a, b, c)
         if isinstance(f, ast.Attribute) and f.attr == "split" and len(e.args) == 1 and not e.keywords:
             return self.bind2(self.expr(f.value), self.expr(e.args[0]), "py_split %s %s")
         if isinstance(f, ast.Attribute) and f.attr in ("items", "keys") and not e.args and not e.keywords:
@@ -300,6 +350,55 @@ class T:
         self.cursor += 1
         return cur, "draws%d" % self.cursor
 
+    def assigned_names(self, stmts):
+        """every name a statement list may (re)bind: plain and tuple assignment targets, and lists changed by append"""
+        out = set()
+        for st in stmts:
+            for n in ast.walk(st):
+                if isinstance(n, ast.Assign):
+                    for t in n.targets:
+                        if isinstance(t, ast.Name):
+                            out.add(t.id)
+                        elif isinstance(t, ast.Tuple):
+                            out |= {x.id for x in t.elts if isinstance(x, ast.Name)}
+                if self.is_append(n):
+                    out.add(n.func.value.id)
+        return out
+
+    def while_general(self, s, rest, k):
+        """while test: <body>   with continue, break, return, raise in the body; the variables carried from one iteration
+        to the next (assigned in the body, bound before the loop) are the loop state, a list in sorted order.
+        -> PyOps.py_while on the parameter `fuel`."""
+        if s.orelse:
+            raise Unsupported("while ... else")
+        if self.loop is not None:
+            raise Unsupported("nested loop")
+        for n in ast.walk(s):
+            if n is not s and isinstance(n, (ast.For, ast.While, ast.AsyncFor)):
+                raise Unsupported("nested loop")
+        if "fuel" in self.extra:
+            raise Unsupported("a second while loop (one fuel parameter per function)")
+        assigned = self.assigned_names(s.body)
+        later = {n.id for st in rest for n in ast.walk(st) if isinstance(n, ast.Name)}
+        leaked = sorted(v for v in assigned if v not in self.bound and v in later)
+        if leaked:
+            raise Unsupported("name %s first bound inside a loop and used after it" % leaked)
+        carried = sorted(v for v in assigned if v in self.bound)
+        self.extra["fuel"] = "nat"
+        st, r, v = self.fresh(), self.fresh(), self.fresh()
+        lets = "".join("let %s := nth %d %s VNone in " % (nm, i, st) for i, nm in enumerate(carried))
+        state = "[%s]" % "; ".join(carried)
+        saved, saved_fresh = set(self.bound), set(self.fresh_lists)
+        test = self.expr(s.test)
+        self.loop, self.loop_ctor = state, "W"
+        body = self.block(s.body, "Ok (WNext %s)" % state)
+        self.loop, self.loop_ctor = None, "L"
+        self.bound = saved
+        self.fresh_lists = saved_fresh & self.fresh_lists
+        cont = self.block(rest, k)
+        return ("(%s <- py_while fuel (fun %s => %s%s)\n (fun %s => %s%s) %s ;;\n match %s with inl %s => %s%s | inr %s => Ok %s end)"
+                % (r, st, lets, test, st, lets, body, state, r, st, lets, cont, v, v))
+
     def for_general(self, s, rest, k):
         """for x in e: <body> / for a, b in e: <body>   with continue, break, return, raise in the body and at most ONE
         variable carried from one iteration to the next (assigned in the body, bound before the loop).
@@ -319,8 +418,7 @@ class T:
             raise Unsupported("loop target")
         if len(set(names)) != len(names) or set(names) & self.bound:
             raise Unsupported("loop target re-uses a bound name")
-        assigned = {t.id for st in s.body for n in ast.walk(st) if isinstance(n, ast.Assign) for t in n.targets if isinstance(t, ast.Name)}
-        assigned |= {n.func.value.id for st in s.body for n in ast.walk(st) if self.is_append(n)}
+        assigned = self.assigned_names(s.body)
         if assigned & set(names):
             raise Unsupported("loop target assigned in the body")
         later = {n.id for st in rest for n in ast.walk(st) if isinstance(n, ast.Name)}
@@ -378,12 +476,12 @@ class T:
             val = self.expr(s.value) if s.value is not None else "Ok VNone"
             if self.loop is not None:
                 a = self.fresh()
-                return "(%s <- %s ;; Ok (LReturn %s))" % (a, val, a)
+                return "(%s <- %s ;; Ok (%sReturn %s))" % (a, val, self.loop_ctor, a)
             return val
         if isinstance(s, (ast.Continue, ast.Break)):
             if self.loop is None:
                 raise Unsupported("continue/break outside a translated loop")
-            return "Ok (%s %s)" % ("LNext" if isinstance(s, ast.Continue) else "LBreak", self.loop)
+            return "Ok (%s%s %s)" % (self.loop_ctor, "Next" if isinstance(s, ast.Continue) else "Break", self.loop)
         if isinstance(s, ast.Raise):
             exc = s.exc
             name = exc.func.id if isinstance(exc, ast.Call) and isinstance(exc.func, ast.Name) else (exc.id if isinstance(exc, ast.Name) else None)
@@ -412,7 +510,22 @@ class T:
                 cur, nxt = self.draws_now()
                 return "(%s <- py_redraw (fun %s => %s) %s %s ;; let %s := fst %s in let %s := snd %s in\n %s)" % (
                     p, x, test, x, cur, x, p, nxt, p, self.block(rest, k))
-            raise Unsupported("while loop shape")
+            return self.while_general(s, rest, k)
+        if isinstance(s, ast.Assign) and len(s.targets) == 1 and isinstance(s.targets[0], ast.Tuple) \
+                and all(isinstance(t, ast.Name) for t in s.targets[0].elts) and not self.is_draw(s.value):
+            # a, b = e : e must be a sequence of exactly that many elements (ValueError otherwise)
+            names = [t.id for t in s.targets[0].elts]
+            if len(set(names)) != len(names):
+                raise Unsupported("tuple target repeats a name")
+            rhs = self.expr(s.value)
+            for nm in names:
+                self.fresh_lists.discard(nm)
+            if isinstance(s.value, ast.Name):
+                self.fresh_lists.discard(s.value.id)
+            x, l = self.fresh(), self.fresh()
+            self.bound |= set(names)
+            lets = "".join("let %s := nth %d %s VNone in " % (nm, i, l) for i, nm in enumerate(names))
+            return "(%s <- %s ;; %s <- py_unpack %s %d ;; %s\n %s)" % (x, rhs, l, x, len(names), lets, self.block(rest, k))
         if isinstance(s, ast.Assign) and len(s.targets) == 1 and isinstance(s.targets[0], ast.Name):
             rhs = self.expr(s.value)
             if isinstance(s.value, ast.Name):
@@ -441,7 +554,7 @@ class T:
         if isinstance(s, ast.If):
             c = self.fresh()
             test = self.expr(s.test)
-            assigned = {t.id for n in ast.walk(s) if isinstance(n, ast.Assign) for t in n.targets if isinstance(t, ast.Name)}
+            assigned = self.assigned_names([s])
             later = {n.id for st in rest for n in ast.walk(st) if isinstance(n, ast.Name)}
             join = sorted(v for v in assigned if v in later or v in self.bound)
             join = [v for v in join if v in self.bound]      # only re-assignments of already bound names flow through
@@ -494,10 +607,31 @@ def translate(func, coqname, methods, varargs_as_list=True):
         if isinstance(n, ast.Name) and n.id in ignored:
             raise Unsupported("reads **%s" % n.id)
     t.bound = set(params)
-    # identifiers of the source become Gallina binders: none may capture a name the emitted code itself uses
-    for ident in set(params) | {n.id for n in ast.walk(fd) if isinstance(n, ast.Name) and isinstance(n.ctx, ast.Store)}:
-        if ident in COQ_RESERVED or re.match(r"^(t|k|draws)\d+$|^(py_|G_)", ident):
+    # identifiers of the source become Gallina binders: none may capture a name the emitted code itself uses.
+    # A parameter / local that spells a reserved word is renamed <name>_py everywhere in the function (it is local, so
+    # it never denotes a global); every other collision is refused.
+    every = {n.id for n in ast.walk(fd) if isinstance(n, ast.Name)} | {a.arg for a in ast.walk(fd) if isinstance(a, ast.arg)}
+    local = set(params) | {n.id for n in ast.walk(fd) if isinstance(n, ast.Name) and isinstance(n.ctx, ast.Store)}
+    for n in ast.walk(fd):
+        if isinstance(n, (ast.Global, ast.Nonlocal, ast.Lambda, ast.FunctionDef, ast.ClassDef, ast.NamedExpr)) and n is not fd:
+            raise Unsupported("global / nonlocal / nested scope / walrus")
+    renamed = {}
+    for ident in sorted(local):
+        if re.match(r"^(t|k|draws)\d+$|^(py_|G_|E_)", ident) or ident == "fuel":
             raise Unsupported("identifier %s collides with a name of the emitted Gallina" % ident)
+        if ident in COQ_RESERVED:
+            new = ident + "_py"
+            if new in every or new in COQ_RESERVED:
+                raise Unsupported("identifier %s collides with a name of the emitted Gallina (and %s is taken)" % (ident, new))
+            renamed[ident] = new
+    if renamed:
+        for n in ast.walk(fd):
+            if isinstance(n, ast.Name) and n.id in renamed:
+                n.id = renamed[n.id]
+            if isinstance(n, ast.arg) and n.arg in renamed:
+                n.arg = renamed[n.arg]
+        params = [renamed.get(x, x) for x in params]
+        t.bound = set(params)
     body = t.block(fd.body)
     args = " ".join("(%s : pyval)" % p for p in params)
     extra = "".join("(%s : %s) " % (n, t.extra[n]) for n in sorted(t.extra))
@@ -515,11 +649,16 @@ TARGETS = [
     ("Src_db", "branch_key_src", "idpyoidc.server.session.database:Database.branch_key", {}),
     ("Src_db", "unpack_branch_key_src", "idpyoidc.server.session.database:Database.unpack_branch_key", {}),
     ("Src_db", "lv_pack_src", "idpyoidc.server.util:lv_pack", {}),
+    ("Src_lv", "lv_unpack_src", "idpyoidc.server.util:lv_unpack", {}),
     ("Src_sub", "public_id_src", "idpyoidc.server.session.manager:public_id", {}),
     ("Src_sub", "pairwise_id_src", "idpyoidc.server.session.manager:pairwise_id", {}),
     ("Src_scopes", "Scopes_get_allowed_scopes_src", "idpyoidc.server.scopes:Scopes.get_allowed_scopes", {}),
     ("Src_scopes", "Scopes_filter_scopes_src", "idpyoidc.server.scopes:Scopes.filter_scopes", {"get_allowed_scopes": "Scopes_get_allowed_scopes_src"}),
+    ("Src_msg", "Message_contains_src", "idpyoidc.message:Message.__contains__", {}),
+    ("Src_msg", "Message_has_none_or_one_of_src", "idpyoidc.message:Message.has_none_or_one_of",
+     {"__contains__": "Message_contains_src"}),
     ("Src_claims", "claims_match_src", "idpyoidc.server.session.claims:claims_match", {}),
+    ("Src_uri", "split_uri_src", "idpyoidc.util:split_uri", {}),
     ("Src_reg", "random_client_id_src", "idpyoidc.server.oidc.registration:random_client_id", {}),
     ("Src_pkce", "verify_code_challenge_src", "idpyoidc.server.oauth2.add_on.pkce:verify_code_challenge", {}),
 ]
